@@ -208,7 +208,7 @@ def check(spec, n, ts):
     is_path = isinstance(obj, BezierPath)
     try:
         L = obj.length
-        if L < 10:
+        if L <= 0:
             return "skip"
         tol = 0.03 * L + 1e-9
         # length so far
@@ -267,6 +267,18 @@ def check(spec, n, ts):
 
 
 def rand_spec(rng):
+    if rng.random() < 0.15:
+        # short objects: a segment or an open path a fraction of a unit to a few units long ("for any path length")
+        k = rng.choice([16.0, 64.0, 256.0, 1024.0])
+        if rng.random() < 0.5:
+            return {"kind": "segment", "pts": [(x / k, y / k) for x, y in oc.rand_seg_pts(rng, rng.choice([2, 3, 4]), "int")]}
+        segs = []
+        cur = (float(rng.randint(-50, 50)), float(rng.randint(-50, 50)))
+        for _ in range(rng.randint(1, 4)):
+            pts = oc.chain_seg(rng, cur, fams=("int",))
+            cur = pts[-1]
+            segs.append(pts)
+        return {"kind": "path", "segs": [[(x / k, y / k) for x, y in s] for s in segs], "closed": False}
     r = rng.random()
     if r < 0.3:
         w, h = rng.choice([(64, 64), (16, 16), (100, 50), (30, 2), (7, 25), (128, 128), (rng.randint(3, 200), rng.randint(3, 200))])
